@@ -19,6 +19,7 @@ import unified_planning as up
 import unified_planning.engines as engines
 from unified_planning.engines.mixins.compiler import CompilationKind, CompilerMixin
 from unified_planning.engines.results import CompilerResult
+from unified_planning.engines.compilers.utils import rewritten_problem_kind
 from unified_planning.model import (
     Problem,
     InstantaneousAction,
@@ -145,7 +146,7 @@ class QuantifiersRemover(engines.engine.Engine, CompilerMixin):
     def resulting_problem_kind(
         problem_kind: ProblemKind, compilation_kind: Optional[CompilationKind] = None
     ) -> ProblemKind:
-        new_kind = problem_kind.clone()
+        new_kind = rewritten_problem_kind(problem_kind)
         new_kind.unset_conditions_kind("EXISTENTIAL_CONDITIONS")
         new_kind.unset_conditions_kind("UNIVERSAL_CONDITIONS")
         new_kind.unset_effects_kind("FORALL_EFFECTS")
